@@ -816,6 +816,10 @@ impl MqttClientImpl {
     }
 
     fn compute_uniform_jitter_period(&self, max_nanos: u128) -> Duration {
+        if max_nanos == 0 {
+            return Duration::ZERO;
+        }
+
         let mut rng = rand::thread_rng();
         let uniform_nanos = rng.gen_range(0..max_nanos);
         Duration::from_nanos(uniform_nanos as u64)
